@@ -170,16 +170,20 @@ def j_key_args(s):
 
 
 def gen_vkw_spec(rng, plain=0.5):
-    """plain: probability of a key with the default envelope of `VerificationKey` (what a decoder returns)"""
+    """plain: probability of a `VerificationKey(payload)` with the default envelope; otherwise extended keys, role-specific
+    keys, the exact-class key with a typed envelope that `SigningKey.to_verification_key()` returns, or any key class"""
     r = rng.random()
     if r < plain:
         key = {"cls": "VerificationKey", "payload": rb(rng, 32), "type": None, "desc": None}
     elif r < plain + 0.2:
         key = gen_key_spec(rng, XVKEY_CLASSES)
         key["payload"] = rb(rng, rng.choice([64, 64, 64, 32, 40, 96]))
-    elif r < plain + 0.45:
+    elif r < plain + 0.4:
         key = gen_key_spec(rng, VKEY_CLASSES)
         key["payload"] = rb(rng, rng.choice([32, 32, 32, 64, 0, 28]))
+    elif r < plain + 0.55:
+        t = rng.choice(["PaymentVerificationKeyShelley_ed25519", "StakeVerificationKeyShelley_ed25519", "StakePoolVerificationKey_ed25519"])
+        key = {"cls": "VerificationKey", "payload": rb(rng, 32), "type": t, "desc": t}      # = sk.to_verification_key()
     else:
         key = gen_key_spec(rng)
     q = rng.random()
@@ -203,12 +207,9 @@ def vkw_serializable(s):
     return issubclass(KEY_BY_NAME[s["key"]["cls"]], (K.VerificationKey, K.ExtendedVerificationKey)) and isinstance(s["sig"], bytes)
 
 
-def vkw_default_envelope(s):
-    """does `==` survive the round trip?  type and description are not on the wire"""
-    if issubclass(KEY_BY_NAME[s["key"]["cls"]], K.ExtendedVerificationKey):
-        return True                                                    # to_non_extended() builds a plain VerificationKey
-    c = KEY_BY_NAME[s["key"]["cls"]]
-    return (s["key"]["type"] or c.KEY_TYPE) == "" and (s["key"]["desc"] or c.KEY_TYPE) == ""
+def vkw_is_verification(s):
+    """the key classes `__post_init__` reduces to the plain `VerificationKey` (and `validate` accepts)"""
+    return issubclass(KEY_BY_NAME[s["key"]["cls"]], (K.VerificationKey, K.ExtendedVerificationKey))
 
 
 # ------------------------------------------------------------------------------------------------- redeemers
